@@ -58,6 +58,7 @@ def gen_dump(rng):
 
 
 def correspondence(ctx, model_ok):
+    gen.HOSTILE_P = 0.03     # unusual but legal labels: '', '@', 'a@b', mutual prefixes, case pairs
     r = CorrResult()
     r.rule = ('random circuits over all gate types (n-ary gates, L*/R* pseudo-unary gates, constants, outputs that are '
               'inputs or repeated, dead logic); per circuit every pass alone (_transform) and 3 random pipelines '
